@@ -317,6 +317,7 @@ func c17ListProblems(all []string) string {
 func c17Sequential(c *Ctx, i int, r *gen.R) {
 	ns := fmt.Sprintf("s%d-%d-", c.Shard, i)
 	model := map[string]string{}
+	modelVal := map[string]decoration.Decoration{}
 	var log []string
 	desc := map[string]interface{}{"namespace": ns}
 	c.Case = desc
@@ -326,9 +327,18 @@ func c17Sequential(c *Ctx, i int, r *gen.R) {
 		switch r.Intn(4) {
 		case 0, 1:
 			id := fmt.Sprintf("v%d", k)
-			decoration.RegisterDecorationName(name, c17Value(id))
+			val, shape := c17Value(id), "completed by Populate"
+			switch r.Intn(6) {
+			case 0:
+				// only the template fields, never run through Populate: the registry stores what it is given
+				val, shape = decoration.Decoration{Horizontal: id, Vertical: "|", CrossPiece: "+"}, "template fields only, not populated"
+			case 1:
+				val, shape = decoration.Decoration{Horizontal: id, VBodyInner: "|", HRule: "-"}, "three pieces only, not populated"
+			}
+			decoration.RegisterDecorationName(name, val)
 			model[name] = id
-			log = append(log, fmt.Sprintf("Register(%s,%s)", name, id))
+			modelVal[name] = val
+			log = append(log, fmt.Sprintf("Register(%s,%s [%s])", name, id, shape))
 		case 2:
 			d := decoration.Named(name)
 			got := ""
@@ -341,7 +351,7 @@ func c17Sequential(c *Ctx, i int, r *gen.R) {
 				c.Rec.Violate("sequential-lookup", fmt.Sprintf("Named(%s) returned %q; the last registration was %q", name, got, model[name]), desc)
 				return
 			}
-			if want, ok := model[name]; ok && d != c17Value(want) {
+			if want, ok := modelVal[name]; ok && d != want {
 				c.Rec.Violate("sequential-lookup-value", fmt.Sprintf("Named(%s) returned a decoration which differs from the one registered", name), desc)
 				return
 			}
